@@ -41,12 +41,34 @@ def eq_literals(fn):
                 return const_of(a)
         return None
 
+    consts = {c_["path"]: c_.get("value") for c_ in fn.prog.doc.get("consts", [])}
+
+    def member_set(v):
+        """`TABLE.contains(&c)` over a constant table of units: the table's elements"""
+        v = M.noref(v)
+        if v[0] == "call" and v[1].endswith("slice::<impl [T]>::contains") and len(v[2]) == 2 and M.noref(v[2][1]) == c:
+            tab = v[2][0]
+            while tab[0] in ("cast", "ref", "deref"):
+                tab = tab[2] if tab[0] == "cast" else tab[1]
+            if tab[0] == "const" and isinstance(consts.get(tab[1]), list) and all(isinstance(x, int) for x in consts[tab[1]]):
+                return set(consts[tab[1]])
+        return None
+
     def walk(bb, pos, neg, seen):
         """pos: the literal the unit is known to equal on this path (or None); neg: literals it is known to differ from"""
         if bb in seen:
             return
         seen = seen | {bb}
         b = fn.blocks[bb]
+        tc_ = b["term"]
+        if tc_["k"] == "call" and tc_["dest"]["l"] == 0 and not tc_["dest"]["proj"]:
+            ms = member_set(("call", M.callee_str(tc_["f"]), tuple(T.operand(a_) for a_ in tc_["args"]), bb))
+            if ms is None:
+                other.append("result of " + M.callee_str(tc_["f"]))
+            else:
+                for k in ms:
+                    if (pos is None and k not in neg) or pos == k:
+                        lits.add(k)
         for s in b["stmts"]:
             if s["k"] == "assign" and s["p"]["l"] == 0 and not s["p"]["proj"]:
                 v = T.rvalue(s["r"])
@@ -73,6 +95,15 @@ def eq_literals(fn):
                 if pos != k:
                     walk(M.switch_target(t, 0), pos, neg | {k}, seen)
                 return
+            if M.noref(sw) == c:
+                # `match c { K1 | K2 => .., _ => .. }`
+                vals = [v_ for v_, _ in t["targets"]]
+                for v_, tgt in t["targets"]:
+                    if (pos is None and v_ not in neg) or pos == v_:
+                        walk(tgt, v_, neg, seen)
+                if pos is None or pos not in vals:
+                    walk(t["otherwise"], pos, neg | set(vals), seen)
+                return
             other.append("branch on " + M.term_str(sw))
         for s in fn.succs(bb):
             walk(s, pos, neg, seen)
@@ -92,19 +123,29 @@ def run(ctx):
     ok = len(qc) == 1 and len(anyc) == 1
     loops = M.sccs(ac)
     item = None
+    enumerated, idx_item = False, None
     if ok and len(loops) == 1:
         nx = [(bb, t) for bb, t in ac.calls(loops[0]) if M.callee_str(t["f"]).endswith("as std::iter::Iterator>::next")]
         if len(nx) == 1:
             item = M.noref(("field", ("downcast", ("call", M.callee_str(nx[0][1]["f"]), tuple(T.operand(a) for a in nx[0][1]["args"]), nx[0][0]), "Some"), "0"))
             it = M.noref(T.operand(nx[0][1]["args"][0]))
-            ctx.ob("R20.4", "args-in-order", it[0] == "call" and it[1].endswith("into_iter") and it[2][0] == ("param", 1, ac.local_name(1)), ac.loc(nx[0][0]), "arguments are consumed with argv.into_iter() (no reordering adaptor)")
+            # argv.into_iter(), possibly numbered with enumerate() (which keeps the order); the argument is then component 1 of the item
+            chain, x_ = [], it
+            while x_[0] == "call" and x_[2]:
+                chain.append(x_[1].split("::")[-1])
+                x_ = M.noref(x_[2][0])
+            enumerated = chain.count("enumerate") == 1
+            if enumerated:
+                idx_item, item = M.noref(("field", item, "0")), M.noref(("field", item, "1"))
+            ctx.ob("R20.4", "args-in-order", x_ == ("param", 1, ac.local_name(1)) and "into_iter" in chain and all(c_ in ("into_iter", "enumerate") for c_ in chain) and chain.count("enumerate") <= 1,
+                   ac.loc(nx[0][0]), "arguments are consumed with argv.into_iter() (no reordering adaptor; found %s)" % chain)
     if ok:
         a = [T.operand(x) for x in anyc[0][1]["args"]]
         src = M.noref(M.strip(a[0], also=(ENC,)))
         clo = a[1][1][1] if a[1][0] == "agg" and a[1][1][0] == "closure" else None
         lits, other = eq_literals(prog.fns[clo]) if clo else (set(), ["no closure"])
         ctx.ob("R20.1", "nul-predicate", lits == {0} and not other, ac.loc(anyc[0][0]), "the rejection predicate accepts %s %s (must be exactly NUL)" % (sorted(lits), other))
-        item_call = item[1][1] if item is not None else None
+        item_call = item[1][1] if item is not None and not enumerated else None
         ctx.ob("R20.1", "nul-test-over-arg", item is not None and src in (item, item_call) and M.contains(a[0], lambda u: u[0] == "call" and u[1] == ENC), ac.loc(anyc[0][0]), "the NUL test runs over the UTF-16 units of the argument being appended")
         f_e = bool_edges(ac, T, lambda c: c[0] == "call" and c[1] == "std::iter::Iterator::any", False)
         t_e = bool_edges(ac, T, lambda c: c[0] == "call" and c[1] == "std::iter::Iterator::any", True)
@@ -122,7 +163,19 @@ def run(ctx):
     # ---- R20.4 (part) separators ------------------------------------------------------------------
     firsts = [i for i, l in enumerate(ac.locals) if l["ty"] == "bool" and l.get("name")]
     ok = len(firsts) == 1
-    if ok:
+    if enumerated and not firsts and qc and loops:
+        # the position is asked of the enumeration index: no separator for index 0, exactly one ' ' before every later argument
+        head = min(loops[0])
+        sp = [(bb, t) for bb, t in ac.calls(loops[0]) if M.callee_str(t["f"]) == "std::vec::Vec::<T, A>::push"]
+        is_idx = lambda t: M.noref(t) == idx_item
+        later = int_eq_edges_ne(ac, T, is_idx, 0)
+        first = int_eq_edges(ac, T, is_idx, 0)
+        ok = len(sp) == 1 and const_of(T.operand(sp[0][1]["args"][1])) == 0x20 and T.addr(sp[0][1]["args"][0]) == T.addr(qc[0][1]["args"][1]) \
+            and bool(later) and bool(first) and dominated_by_edges(ac, sp[0][0], later, start=nx[0][0]) \
+            and all(qc[0][0] not in ac.reachable(e_[1], removed_blocks={sp[0][0]}, stop_blocks=[nx[0][0]]) for e_ in later) \
+            and sp[0][0] in ac.reachable(nx[0][0], stop_blocks=[qc[0][0]])
+        ctx.ob("R20.4", "one-space-between-args", ok, ac.loc(sp[0][0] if sp else 0), "first argument (index 0): no separator; every later argument: exactly one ' ' before it is quoted (space pushes in the loop: %d)" % len(sp))
+    elif ok:
         fl = firsts[0]
         init = [T.rvalue(r) for (bb, si, r) in ac.defs().get(fl, []) if bb not in (loops[0] if loops else set())]
         res = {}
@@ -171,8 +224,14 @@ def run(ctx):
                 lits, other = eq_literals(prog.fns[clo])
             f_e = bool_edges(aq, Tq, lambda c: c[0] == "call" and c[1] == "std::iter::Iterator::any", False)
         ctx.ob("R20.2", "bare=extend(cmdline, arg)", okb, aq.loc(eb), "the bare form appends the argument's UTF-16 units unchanged")
-        ctx.ob("R20.2", "bare-only-if-nonempty", dominated_by_edges(aq, eb, ne), aq.loc(eb), "an empty argument must be quoted (\"\"), otherwise it disappears from the command line")
-        ctx.ob("R20.2", "bare-only-if-no-trigger-char", dominated_by_edges(aq, eb, f_e) and not other, aq.loc(eb), "the bare form is used only when no unit satisfies the trigger predicate %s" % other)
+        def unreachable_under(pred, value):
+            E = M.Explore(aq, assume_fn=lambda t: value if (t and pred(M.noref(t))) else None)
+            return eb not in E.blocks
+        has_empty = bool(aq.calls_to(lambda f: M.callee_str(f) == "std::ffi::OsStr::is_empty"))
+        ne_ok = dominated_by_edges(aq, eb, ne) or (has_empty and unreachable_under(lambda c: c[0] == "call" and c[1] == "std::ffi::OsStr::is_empty" and M.noref(c[2][0]) == argp, 1))
+        any_ok = dominated_by_edges(aq, eb, f_e) or (len(anyc) == 1 and unreachable_under(lambda c: c[0] == "call" and c[1] == "std::iter::Iterator::any", 1))
+        ctx.ob("R20.2", "bare-only-if-nonempty", ne_ok, aq.loc(eb), "an empty argument must be quoted (\"\"), otherwise it disappears from the command line")
+        ctx.ob("R20.2", "bare-only-if-no-trigger-char", any_ok and not other, aq.loc(eb), "the bare form is used only when no unit satisfies the trigger predicate %s" % other)
         for ch, nm in ((0x20, "space"), (0x09, "tab"), (0x22, "double quote")):
             ctx.ob("R20.2", "trigger-set-has-%s" % nm.replace(" ", "-"), ch in lits, aq.loc(anyc[0][0] if anyc else 0), "the quoting trigger set %s must contain %s (U+%04X)" % (sorted(lits), nm, ch))
         # bare branch returns without any quote
@@ -184,13 +243,41 @@ def run(ctx):
 
     # ---- R20.3 backslash arithmetic -------------------------------------------------------------------------
     S = M.SymTerms(aq)
-    nlocs = [i for i, l in enumerate(aq.locals) if l.get("name") == "num_backslashes"]
-    ilocs = [i for i, l in enumerate(aq.locals) if l.get("name") == "i"]
-    vlocs = [i for i, l in enumerate(aq.locals) if l.get("name") == "arg" and i > aq.arg_count]
-    if len(nlocs) != 1 or len(ilocs) != 1 or len(vlocs) != 1:
-        ctx.missing("R20.3", "locals num_backslashes / i / arg (collected units)", "%s %s %s" % (nlocs, ilocs, vlocs))
+    # the three variables of the scan, found by their role and not by their name: the collected units (a Vec<u16> built by collect() from
+    # the argument's encode_wide()), the cursor (the variable the units are indexed with), the run counter (the variable the emission counts
+    # are computed from)
+    own = lambda i, l: i > aq.arg_count and l.get("name") and not l.get("inl")
+    vlocs = []
+    for i, l in enumerate(aq.locals):
+        if own(i, l) and "Vec<u16" in l["ty"].replace(" ", ""):
+            ds = [r for (_, _, r) in aq.defs().get(i, []) if r["k"] != "partial"]
+            if len(ds) == 1 and ds[0]["k"] == "call" and M.callee_str(ds[0]["t"]["f"]) == "std::iter::Iterator::collect" and \
+                    M.contains(Tq.local(i), lambda u: u[0] == "call" and u[1] == ENC and M.noref(u[2][0]) == argp):
+                vlocs.append(i)
+    ilocs, nlocs = set(), set()
+    if len(vlocs) == 1:
+        for bb_, t_ in aq.calls():
+            if "index" in M.callee_str(t_["f"]).lower() and len(t_["args"]) == 2 and M.noref(S.operand(t_["args"][0])) == ("var", vlocs[0], aq.locals[vlocs[0]]["name"]):
+                ix = M.noref(S.operand(t_["args"][1]))
+                ilocs.add(ix[1] if ix[0] == "var" else None)
+    cnt_terms = []
+    for bb_ in sorted(aq.live_blocks()):
+        for s_ in aq.blocks[bb_]["stmts"]:
+            if s_["k"] == "assign" and s_["r"]["k"] == "agg" and s_["r"].get("adt") == "std::ops::Range":
+                cnt_terms.append(S.operand(s_["r"]["ops"][1]))
+    for bb_, t_, _ in ext_emit:
+        tk_ = M.noref(S.operand(t_["args"][1]))
+        if tk_[0] == "call" and len(tk_[2]) == 2:
+            cnt_terms.append(tk_[2][1])
+    for ct_ in cnt_terms:
+        for lf in M.leaves(ct_):
+            if lf[0] == "var" and own(lf[1], aq.locals[lf[1]]):
+                nlocs.add(lf[1])
+    ilocs, nlocs = sorted(ilocs, key=lambda x: -1 if x is None else x), sorted(nlocs)
+    if len(nlocs) != 1 or len(ilocs) != 1 or ilocs[0] is None or len(vlocs) != 1:
+        ctx.missing("R20.3", "the scan's variables (run counter / cursor / collected units)", "%s %s %s" % (nlocs, ilocs, vlocs))
         return
-    n, i_, v_ = ("var", nlocs[0], "num_backslashes"), ("var", ilocs[0], "i"), ("var", vlocs[0], "arg")
+    n, i_, v_ = (("var", l_, aq.locals[l_]["name"]) for l_ in (nlocs[0], ilocs[0], vlocs[0]))
 
     def lin(t):
         t = M.noref(t)
